@@ -27,7 +27,8 @@ ASSUMPTIONS = [
 MAXTASKS = 40
 
 A, B, U = "pyscript.a", "pyscript.b", "pyscript.u"
-INITIAL = {A: ("0", {"x": 1}), B: ("0", {}), U: ("0", {})}
+AB = "pyscript.ab"  # an entity whose id has A's id as a string prefix; never changed by the actions
+INITIAL = {A: ("0", {"x": 1}), B: ("0", {}), U: ("0", {}), AB: ("0", {})}
 
 ACTIONS = ["A1", "A0", "AX2", "AX1", "AXD", "AD", "B1", "B0", "BD", "U"]
 
@@ -160,6 +161,15 @@ FORMS = [
                                     Dec("\"pyscript.a\", kwargs={'who': 2}", None, [A], anys=[A], kwargs={"who": 2})])]),
     ("kwargs_override", [("f1", [Dec("\"pyscript.a == '1'\", kwargs={'value': 'OVR', 'who': 7}", lambda e: e.V(A) == "1", [A],
                                     kwargs={"value": "OVR", "who": 7})])]),
+    # several expressions are or'ed as whole expressions, whatever their operator precedence
+    ("multi_args_ifexp", [("f1", [Dec("\"pyscript.b == '1'\", \"1 if pyscript.a == '1' else 0\"",
+                                     lambda e: e.V(B) == "1" or (1 if e.V(A) == "1" else 0), [A, B])])]),
+    # an attribute of one entity next to the value of another: the first evaluation may be caused by either
+    ("attr_and_other", [("f1", [Dec("\"pyscript.b == '1' and pyscript.a.x == 2\"",
+                                   lambda e: e.V(B) == "1" and e.X(A, "x") == 2, [B, A + ".x"])])]),
+    # an attribute of A next to the value of an entity whose id starts with A's id
+    ("prefix_entity", [("f1", [Dec("\"pyscript.a.x == 1 and pyscript.ab == '0'\"",
+                                  lambda e: e.X(A, "x") == 1 and e.V(AB) == "0", [A + ".x", AB])])]),
     ("two_functions", [("f1", [Dec("\"pyscript.a == '1'\"", lambda e: e.V(A) == "1", [A])]),
                        ("f2", [Dec("\"pyscript.a == '0' or pyscript.b == '1'\"", lambda e: e.V(A) == "0" or e.V(B) == "1", [A, B])])]),
 ]
@@ -286,7 +296,7 @@ def run_history(form, legacy, hist, sched, res=None, trace=None):
         if fail is None:
             # model/impl state agreement (the dictionary model is also what C16 relies on)
             impl = tuple(sorted((s.entity_id, s.state, tuple(sorted(s.attributes.items())))
-                                for s in w.hass.states.async_all() if s.entity_id in (A, B, U)))
+                                for s in w.hass.states.async_all() if s.entity_id in (A, B, U, AB)))
             if impl != model.canon():
                 fail = {"kind": "model-state-mismatch", "expected": model.canon(), "observed": impl}
         if trace is not None:
